@@ -18,6 +18,7 @@ pub fn run(rep: &Report) -> u64 {
 }
 
 pub fn explore(ex: &Ex) {
+    super::short_strings(ex, "c08.bytes", &[(Ty::Header, Entry::Slice), (Ty::Protected, Entry::Slice), (Ty::Protected, Entry::Bstr)], ex.pick(1usize, 2, 3));
     let pairs = gen::header_pairs();
     let depth = ex.pick(2usize, 3, 4);
     map_tree(ex, "c08.maps", &pairs, depth, &|map, d, l| {
